@@ -104,7 +104,7 @@ def _check_rel(out, op, fst, ref, alpha, n):
         if got is FAILED:
             return False
         if set(got) != want:
-            d = sorted(set(got) ^ want)
+            d = sorted(set(got) ^ want, key=repr)
             out.fail(op + ":relation", input=list(w), output=list(d[0]), in_reference=d[0] in want)
             return False
     return True
@@ -124,7 +124,7 @@ def _check_op(out, op, res, want_ref, alpha, n):
         want = want_ref.outputs(w)
         got = rr.outputs(w)
         if got != want:
-            d = sorted(got ^ want)
+            d = sorted(got ^ want, key=repr)
             out.fail(op + ":relation", input=list(w), output=list(d[0]), in_reference=d[0] in want)
             return
     # and through the result's own translate
@@ -212,6 +212,6 @@ def _run(case, out):
             if got is FAILED:
                 break
             if set(got) != want:
-                out.fail("to_fst:relation", input=list(w), got=[list(o) for o in sorted(set(got))][:3],
+                out.fail("to_fst:relation", input=list(w), got=[list(o) for o in sorted(set(got), key=repr)][:3],
                          member=bool(want))
                 break
